@@ -39,6 +39,10 @@ def series(ctx):
         for pre, post in ((0, 0), (3, 2), (1, 0)):
             yield [0] * pre + [1] * run + [0] * post
             yield [1] * 2 + [0] + [1] * run + [0] + [1] * 5
+    for g in (254, 255, 256, 257, 258, 510, 511, 512, 513, 767, 768, 769):
+        yield [1, 1, 1] + [0] * g + [1, 1, 1] + [0] * 4
+        yield [0, 1] + [0] * g + [1, 0, 1]
+        yield [1] + [0] * g + [1, 1]
     rng = ctx.rng
     for _ in range(ctx.budget(300, 3000)):
         n = rng.choice([17, 36, 100, 255, 256, 257, 400, 1000])
